@@ -3,6 +3,7 @@
 //! abstracted to the layout level and compared with the Coq model of write_code.
 mod mini;
 mod lenient;
+mod tree;
 
 use std::collections::HashMap;
 use std::io::Cursor;
@@ -11,8 +12,9 @@ use std::panic::AssertUnwindSafe;
 use duke::tree::class::ClassFile;
 use duke::tree::method::code::{Code, Instruction, Label, LabelRange};
 use duke::tree::type_annotation::TargetInfoCode;
+use duke::visitor::method::code::{StackMapData, VerificationTypeInfo};
 use fbh::classfile::asm::{assemble, try_assemble, Enc, Knobs};
-use fbh::classfile::facts::{facts_from_duke, facts_from_raw, ClassFacts, CodeFacts, FactGroup, InsnG, OperandG};
+use fbh::classfile::facts::{facts_from_duke, facts_from_raw, ClassFacts, CodeFacts, FrameG, FrameKindG, InsnG, JStr, OperandG, VTypeG};
 use fbh::classfile::gen::{self, gen_class, GenCfg};
 use fbh::classfile::raw::{self, AttrInfo, Operands, TargetInfo};
 use fbh::prng::Rng;
@@ -116,14 +118,43 @@ fn tables_of_raw(c: &raw::CodeAttr) -> Tables {
 	t
 }
 
-struct Abs { ents: Vec<(Option<u64>, Ent)>, last: Option<u64>, tables: Tables, hasmax: bool }
+struct Abs { ents: Vec<(Option<u64>, Ent)>, last: Option<u64>, tables: Tables, hasmax: bool, frames: Vec<(usize, String)> }
+
+/// pool index of every CONSTANT_Class of a written class, by the modified-UTF-8 bytes of its name
+type ClassIdx = HashMap<Vec<u8>, u16>;
+fn class_indices(rc: &raw::RawClass) -> ClassIdx {
+	let mut m = HashMap::new();
+	for (i, c) in rc.pool.iter().enumerate() { if let Some(raw::Const::Class(n)) = c { if let Ok(b) = rc.utf8_bytes(*n) { m.entry(b.to_vec()).or_insert(i as u16); } } }
+	m
+}
+/// a verification type at the layout level: Object(class) enters with the index put_class gave it
+fn g_vti(v: &VerificationTypeInfo, cls: &ClassIdx) -> String {
+	match v {
+		VerificationTypeInfo::Top => "VSimple 0".into(), VerificationTypeInfo::Integer => "VSimple 1".into(), VerificationTypeInfo::Float => "VSimple 2".into(),
+		VerificationTypeInfo::Double => "VSimple 3".into(), VerificationTypeInfo::Long => "VSimple 4".into(), VerificationTypeInfo::Null => "VSimple 5".into(),
+		VerificationTypeInfo::UninitializedThis => "VSimple 6".into(),
+		VerificationTypeInfo::Object(c) => format!("VObject {}%Z", cls.get(&JStr::from_java(c.as_inner()).to_mutf8()).copied().unwrap_or(0)),
+		VerificationTypeInfo::Uninitialized(l) => format!("VUninit {}", lid(l)),
+	}
+}
+fn g_vtis(v: &[VerificationTypeInfo], cls: &ClassIdx) -> String { format!("[{}]", v.iter().map(|t| g_vti(t, cls)).collect::<Vec<_>>().join(";")) }
+fn g_frame(f: &StackMapData, cls: &ClassIdx) -> String {
+	match f {
+		StackMapData::Same => "FSame".into(),
+		StackMapData::SameLocals1StackItem { stack } => format!("FSame1 ({})", g_vti(stack, cls)),
+		StackMapData::Chop { k } => format!("FChop {k}%Z"),
+		StackMapData::Append { locals } => format!("FAppend {}", g_vtis(locals, cls)),
+		StackMapData::Full { locals, stack } => format!("FFull {} {}", g_vtis(locals, cls), g_vtis(stack, cls)),
+	}
+}
 
 /// `plain[k]` = the bytes the writer emits for instruction k when it is not label-carrying
-fn abstract_code(code: &Code, plain: &[Vec<u8>]) -> Abs {
+fn abstract_code(code: &Code, plain: &[Vec<u8>], cls: &ClassIdx) -> Abs {
 	let ents = code.instructions.iter().enumerate().map(|(k, e)| {
 		(e.label.as_ref().map(lid), branch_of(&e.instruction).unwrap_or_else(|| Ent::Plain(plain[k].clone())))
 	}).collect();
-	Abs { ents, last: code.last_label.as_ref().map(lid), tables: tables_of(code), hasmax: code.max_stack.is_some() && code.max_locals.is_some() }
+	let frames = code.instructions.iter().enumerate().filter_map(|(k, e)| e.frame.as_ref().map(|f| (k, g_frame(f, cls)))).collect();
+	Abs { ents, last: code.last_label.as_ref().map(lid), tables: tables_of(code), hasmax: code.max_stack.is_some() && code.max_locals.is_some(), frames }
 }
 
 // ---------- Gallina printing ----------
@@ -163,14 +194,22 @@ fn g_tables(ctor: &str, t: &Tables) -> String {
 		gnl(&t.offs),
 		t.ranges.iter().map(|(a, b)| format!("({a},{b})")).collect::<Vec<_>>().join(";"))
 }
-enum Answer { Ok(Vec<u8>, Tables), Err, Panic }
+enum Answer { Ok(Vec<u8>, Tables, Option<Vec<u8>>), Err, Panic }
 fn g_case(a: &Abs, ans: &Answer) -> String {
 	let r = match ans {
-		Answer::Ok(code, t) => format!("(IOk {} {})", g_rle_bytes(code), g_tables("Build_itables", t)),
+		Answer::Ok(code, t, _) => format!("(IOk {} {})", g_rle_bytes(code), g_tables("Build_itables", t)),
 		Answer::Err => "IErr".into(),
 		Answer::Panic => "IPanic".into(),
 	};
-	format!("CWrite {} {} {} {} {}", a.hasmax, g_body(&a.ents), match a.last { Some(l) => format!("(Some {l})"), None => "None".into() }, g_tables("Build_tables", &a.tables), r)
+	let last = match a.last { Some(l) => format!("(Some {l})"), None => "None".into() };
+	if a.frames.is_empty() && !matches!(ans, Answer::Ok(_, _, Some(_))) {
+		format!("CWrite {} {} {} {} {}", a.hasmax, g_body(&a.ents), last, g_tables("Build_tables", &a.tables), r)
+	} else {
+		// a method with stack map frames: the frames and the body of the written StackMapTable attribute
+		let sm = match ans { Answer::Ok(_, _, Some(b)) => format!("(Some {})", gbytes(b)), _ => "None".into() };
+		let fs = a.frames.iter().map(|(k, f)| format!("({k}, {f})")).collect::<Vec<_>>().join(";");
+		format!("CWriteF {} {} {} {} [{}] {} {}", a.hasmax, g_body(&a.ents), last, g_tables("Build_tables", &a.tables), fs, r, sm)
+	}
 }
 
 // ------------------------------------------------------------------------------------------
@@ -351,7 +390,7 @@ fn replay_text(what: &str, desc: &str, orig: &[u8]) -> String {
 	format!("property C02\nwhat: {what}\ninput: {desc}\nclass file (hex): {shown}\nsteps: duke::read_class(bytes) -> duke::write_class(tree) -> strict parse / compare\n")
 }
 
-struct Run<'a> { r: &'a mut Report, cases_left: usize, per_stream: HashMap<String, usize>, cap: usize, pool_left: usize, ldc_left: usize, rename_left: usize, frames_left: usize, bsm_left: usize, pool_per_stream: HashMap<String, usize>, ldc_per_stream: HashMap<String, usize> }
+struct Run<'a> { r: &'a mut Report, cases_left: usize, per_stream: HashMap<String, usize>, cap: usize, pool_left: usize, ldc_left: usize, rename_left: usize, bsm_left: usize, class_left: usize, class_per_stream: HashMap<String, usize>, class_cap: usize, pool_per_stream: HashMap<String, usize>, ldc_per_stream: HashMap<String, usize> }
 
 /// one class through everything.  `mutate` may modify the tree after reading (hypothesis-violating streams).
 fn through(run: &mut Run, stream: &str, desc: &str, orig: &[u8], mutate: Option<&dyn Fn(&mut ClassFile)>) {
@@ -433,12 +472,9 @@ fn through_tree_(run: &mut Run, stream: &str, desc: &str, orig: &[u8], tree: &Cl
 								if let Err(e) = sem_check(c, rcode) {
 									r.violation(format!("method {mi}: {e}"), replay_text(&format!("method {mi}: {e}"), desc, orig));
 								}
-								if has_frames(c) && !rcode.attributes.iter().any(|a| matches!(a.info, AttrInfo::StackMapTable(_))) { r.count("F14_frames_dropped"); }
-								if run.frames_left > 0 && c.instructions.len() <= 400 {
-									run.frames_left -= 1;
+								if has_frames(c) {
 									let written = rcode.attributes.iter().map(|a| if let AttrInfo::StackMapTable(v) = &a.info { v.len() } else { 0 }).sum::<usize>();
-									let fs: Vec<String> = c.instructions.iter().enumerate().map(|(k, e)| if e.frame.is_some() { format!("Some {k}") } else { "None".into() }).collect();
-									r.case("frames", format!("CFrames [{}] {written}", fs.join(";")));
+									r.count("methods_with_frames"); r.count_n("frames_in_tree", c.instructions.iter().filter(|e| e.frame.is_some()).count() as u64); r.count_n("frames_written", written as u64);
 								}
 							}
 							(None, None) => {}
@@ -453,17 +489,14 @@ fn through_tree_(run: &mut Run, stream: &str, desc: &str, orig: &[u8], tree: &Cl
 							let of = match contract_class(&tf, &of) { Ok(x) => x, Err(e) => { r.violation(format!("written class: {e}"), replay_text(&e, desc, orig)); of } };
 							if tf != of {
 								let groups = tf.differing_groups(&of);
-								let frames_only = groups.iter().all(|g| *g == FactGroup::Frames);
-								let tree_has_frames = tree.methods.iter().any(|m| m.code.as_ref().map_or(false, has_frames));
-								if frames_only && tree_has_frames && tf.without_frames() == of.without_frames() {
-									r.known("F14 stack map frames of the tree are not written".into());
-								} else {
-									let lines = tf.without_frames().diff(&of.without_frames());
-									let shown: Vec<String> = lines.iter().take(6).cloned().collect();
-									r.violation(format!("facts read back from the written class differ from the tree (tree != written): {}", shown.join(" | ")),
-										replay_text(&format!("facts differ in groups {:?}: {}", groups, shown.join(" | ")), desc, orig));
-								}
-							} else { r.count("facts_equal"); }
+								let lines = tf.diff(&of);
+								let shown: Vec<String> = lines.iter().take(6).cloned().collect();
+								r.violation(format!("facts read back from the written class differ from the tree (tree != written): {}", shown.join(" | ")),
+									replay_text(&format!("facts differ in groups {:?}: {}", groups, shown.join(" | ")), desc, orig));
+							} else {
+								r.count("facts_equal");
+								if tf.methods.iter().any(|m| m.code.as_ref().map_or(false, |c| c.frames.is_some())) { r.count("facts_equal_with_frames"); }
+							}
 						}
 					}
 					parsed = Some(rc);
@@ -472,18 +505,46 @@ fn through_tree_(run: &mut Run, stream: &str, desc: &str, orig: &[u8], tree: &Cl
 		}
 	}
 	}
+	// correspondence of the whole class: the tree as a term of the model's tree type, the written file byte for byte
+	let n_insns: usize = tree.methods.iter().filter_map(|m| m.code.as_ref()).map(|c| c.instructions.len()).sum();
+	let mut plain_cache: Option<Result<Vec<Option<Vec<Vec<u8>>>>, String>> = None;
+	let class_stream = stream.split('+').next().unwrap_or(stream).to_string();
+	if run.class_left > 0 && n_insns <= 3000 && *run.class_per_stream.get(&class_stream).unwrap_or(&0) < run.class_cap {
+		let pl = if n_code == 0 { Ok(vec![None; tree.methods.len()]) } else { plain_bytes(tree) };
+		match &pl {
+			Ok(p) => match tree::class_term(tree, p) {
+				Ok((term, strings)) => {
+					let ans = match &res { Ok(Ok(out)) => format!("(KOk {})", tree::pack(out)), Ok(Err(_)) => "KErr".into(), Err(_) => "KPanic".into() };
+					let total: usize = strings.iter().map(|b| b.len()).sum::<usize>() + match &res { Ok(Ok(out)) => out.len(), _ => 0 };
+					if total <= 60_000 {
+						run.class_left -= 1;
+						*run.class_per_stream.entry(class_stream.clone()).or_insert(0) += 1;
+						r.count("class_cases"); r.count(match &res { Ok(Ok(_)) => "class_answer_ok", Ok(Err(_)) => "class_answer_err", Err(_) => "class_answer_panic" });
+						r.count_n("class_case_bytes", match &res { Ok(Ok(out)) => out.len() as u64, _ => 0 });
+						r.case(&format!("class-{class_stream}"), format!("CClass [{}] {term} {ans}", strings.iter().map(|b| tree::pack(b)).collect::<Vec<_>>().join(";")));
+					} else { r.count("class_case_too_large"); }
+				}
+				Err(e) => { r.count("class_term_failed"); r.notes.push(format!("class term ({stream}): {e}")); r.notes.truncate(20); }
+			},
+			Err(_) => r.count("class_case_probe_failed"),
+		}
+		if n_code > 0 { plain_cache = Some(pl); }
+	}
 	// correspondence, method by method (names do not enter the layout-level model: not repeated for the renamed tree)
 	if n_code == 0 || run.cases_left == 0 || stream.ends_with("+renamed") { return; }
 	if *run.per_stream.get(stream).unwrap_or(&0) >= run.cap { return; }
-	let plain = match plain_bytes(tree) { Ok(p) => p, Err(e) => { r.count("probe_failed"); r.notes.push(format!("probe failed ({stream}): {e}")); r.notes.truncate(20); return; } };
+	let cls: ClassIdx = parsed.as_ref().map(class_indices).unwrap_or_default();
+	let lcodes = match &res { Ok(Ok(out)) => lenient::codes(out), _ => None };
+	let sm_of = |mi: usize| -> Option<Vec<u8>> { lcodes.as_ref().and_then(|v| v.get(mi)).and_then(|c| c.as_ref()).and_then(|c| c.stack_map.clone()) };
+	let plain = match plain_cache.unwrap_or_else(|| plain_bytes(tree)) { Ok(p) => p, Err(e) => { r.count("probe_failed"); r.notes.push(format!("probe failed ({stream}): {e}")); r.notes.truncate(20); return; } };
 	// when the write failed as a whole we can attribute the failure to a method only if exactly one method has code
 	for (mi, m) in tree.methods.iter().enumerate() {
 		let Some(c) = &m.code else { continue };
 		let Some(pl) = &plain[mi] else { continue };
 		if from_reading && !unique_labels(c) { r.count("hypothesis_unique_labels_violated_by_reader"); }
-		let a = abstract_code(c, pl);
+		let a = abstract_code(c, pl, &cls);
 		let ans = match (&res, &parsed) {
-			(Ok(Ok(_)), Some(rc)) => match code_of(&rc.methods[mi]) { Some(rcode) => Answer::Ok(rcode.code.clone(), tables_of_raw(rcode)), None => continue },
+			(Ok(Ok(_)), Some(rc)) => match code_of(&rc.methods[mi]) { Some(rcode) => Answer::Ok(rcode.code.clone(), tables_of_raw(rcode), sm_of(mi)), None => continue },
 			(Ok(Ok(out)), None) => match lenient::codes(out).and_then(|mut v| if mi < v.len() { v.swap_remove(mi) } else { None }) {
 				Some(lc) => {
 					let mut t = Tables::default();
@@ -491,7 +552,8 @@ fn through_tree_(run: &mut Run, stream: &str, desc: &str, orig: &[u8], tree: &Cl
 					for l in &lc.lines { t.offs.push(*l as u64); }
 					for (a, b) in lc.lvt.iter().chain(lc.lvtt.iter()) { t.ranges.push((*a as u64, *b as u64)); }
 					r.count("answer_from_lenient_extraction");
-					Answer::Ok(lc.code, t)
+					let sm = lc.stack_map.clone();
+					Answer::Ok(lc.code, t, sm)
 				}
 				None => continue,
 			},
@@ -504,6 +566,7 @@ fn through_tree_(run: &mut Run, stream: &str, desc: &str, orig: &[u8], tree: &Cl
 		*run.per_stream.entry(stream.to_string()).or_insert(0) += 1;
 		r.count(&format!("case_insns_{}", match c.instructions.len() { 0..=9 => "1-9", 10..=99 => "10-99", 100..=999 => "100-999", 1000..=9999 => "1k-10k", _ => "10k+" }));
 		r.count(match ans { Answer::Ok(..) => "answer_ok", Answer::Err => "answer_err", Answer::Panic => "answer_panic" });
+		if !a.frames.is_empty() { r.count("cases_with_frames"); r.count_n("frames_in_cases", a.frames.len() as u64); }
 		let widened = a.ents.iter().filter(|e| matches!(e.1, Ent::Cond { .. } | Ent::Jump { .. })).count();
 		r.count_n("branches_in_cases", widened as u64);
 		r.case(stream, g_case(&a, &ans));
@@ -670,7 +733,7 @@ pub fn run(ctx: &Ctx) -> anyhow::Result<Report> {
 	r.shard_size = 24;
 	let mut rng = Rng::new(ctx.seed);
 	r.rule = "class files (assembled boundary constructions, random near-boundary methods, javac corpus) -> duke::read_class -> duke::write_class; oracle: the independent strict parser must accept the output and every branch/switch arm/exception range/table pc must designate the image of the same tree instruction; correspondence: every method body abstracted to the layout level (plain instruction bytes taken from a probe write in which label-carrying instructions are nops) and the Coq model of write_code compared byte for byte with the written code array and tables. Non-trivial = the class has at least one method with code; distinct by stream, description and class prefix.".into();
-	let mut run = Run { r: &mut r, cases_left: if ctx.thorough { 9000 } else { 1100 }, per_stream: HashMap::new(), cap: if ctx.thorough { 1500 } else { 230 }, pool_left: if ctx.thorough { 300 } else { 60 }, ldc_left: if ctx.thorough { 600 } else { 120 }, rename_left: if ctx.thorough { 4000 } else { 400 }, frames_left: if ctx.thorough { 400 } else { 80 }, bsm_left: if ctx.thorough { 300 } else { 60 }, pool_per_stream: HashMap::new(), ldc_per_stream: HashMap::new() };
+	let mut run = Run { r: &mut r, cases_left: if ctx.thorough { 9000 } else { 1100 }, per_stream: HashMap::new(), cap: if ctx.thorough { 1500 } else { 230 }, pool_left: if ctx.thorough { 300 } else { 60 }, ldc_left: if ctx.thorough { 600 } else { 120 }, rename_left: if ctx.thorough { 4000 } else { 400 }, bsm_left: if ctx.thorough { 300 } else { 60 }, class_left: if ctx.thorough { 2500 } else { 420 }, class_per_stream: HashMap::new(), class_cap: if ctx.thorough { 900 } else { 150 }, pool_per_stream: HashMap::new(), ldc_per_stream: HashMap::new() };
 
 	let grow = 300usize; // fields: String constant lands beyond index 255 in the written pool
 	let one = |m: MiniMethod, nf: usize| MiniClass { n_fields: nf, methods: vec![m] };
@@ -794,6 +857,64 @@ pub fn run(ctx: &Ctx) -> anyhow::Result<Report> {
 					c.instructions.insert(at, duke::tree::method::code::InstructionListEntry { label: None, frame: None, instruction: Instruction::Nop }); } };
 				through_edited(&mut run, "chain-grown", &format!("branch_chain {kk} 32767 with a nop inserted at instruction {at}"), &b, &f);
 			}
+		}
+	}
+	// 9b. frames across restarts: the shared branch chain with frames on its targets; a nop inserted after
+	//     reading puts every conditional one byte too far, so the loop starts over (the frames collected by the
+	//     abandoned attempts must not be written)
+	{
+		use gen::boundary as bd;
+		use fbh::classfile::asm::LabelId;
+		for kk in [2usize, 4] {
+			let mut spec = bd::branch_chain(kk, 32767);
+			if let Some(c) = spec.methods[0].code.as_mut() {
+				c.frames = Some((0..kk).map(|i| FrameG { at: LabelId(i as u32), kind: match i % 4 {
+					0 => FrameKindG::Same,
+					1 => FrameKindG::Append(vec![VTypeG::Object("java/lang/String".into()), VTypeG::Uninitialized(LabelId(0))]),
+					2 => FrameKindG::Full { locals: vec![VTypeG::Integer, VTypeG::Long], stack: vec![VTypeG::Object("corp/gen/BranchChain".into())] },
+					_ => FrameKindG::SameLocals1(VTypeG::Null),
+				} }).collect());
+			}
+			let Ok(b) = try_assemble(&spec, &Knobs::default()) else { run.r.count("generator_rejected"); continue };
+			through(&mut run, "frames-restart", &format!("branch_chain {kk} 32767 with frames on the targets"), &b, None);
+			for at in [kk, kk + 100] {
+				let f = move |t: &mut ClassFile| { if let Some(c) = t.methods.get_mut(0).and_then(|m| m.code.as_mut()) {
+					c.instructions.insert(at, duke::tree::method::code::InstructionListEntry { label: None, frame: None, instruction: Instruction::Nop }); } };
+				through_edited(&mut run, "frames-restart", &format!("branch_chain {kk} 32767 with frames on the targets and a nop inserted at instruction {at}"), &b, &f);
+			}
+		}
+	}
+	// 9c. frames that reading cannot produce: chop of 0 or 4 locals, append of 4 locals, an uninitialized type whose
+	//     label is on no instruction, a frame on an instruction without label, more than 63 bytes between frames
+	{
+		let cfg = GenCfg::default();
+		let want = if ctx.thorough { 120 } else { 24 };
+		let (mut got, mut tries) = (0, 0);
+		while got < want && tries < 40 * want {
+			tries += 1;
+			let spec = gen_class(&mut rng, &cfg);
+			let Ok(b) = try_assemble(&spec, &Knobs::default()) else { continue };
+			let Ok(Ok(t0)) = impl_read(&b) else { continue };
+			let Some(mi) = t0.methods.iter().position(|m| m.code.as_ref().map_or(false, has_frames)) else { continue };
+			let kind = got % 6; let sel = rng.next() as usize;
+			let f = move |t: &mut ClassFile| {
+				let Some(c) = t.methods.get_mut(mi).and_then(|m| m.code.as_mut()) else { return };
+				let n = c.instructions.len();
+				let first = c.instructions.iter().position(|e| e.frame.is_some()).unwrap_or(0);
+				match kind {
+					0 => c.instructions[first].frame = Some(StackMapData::Chop { k: if sel % 2 == 0 { 0 } else { 4 } }),
+					1 => c.instructions[first].frame = Some(StackMapData::Append { locals: vec![VerificationTypeInfo::Integer; if sel % 2 == 0 { 4 } else { 0 }] }),
+					2 => { let l = c.instructions.iter().filter_map(|e| e.label).last(); if let Some(l) = l {
+						for e in &mut c.instructions { if e.label == Some(l) { e.label = None; } }
+						c.instructions[first].frame = Some(StackMapData::SameLocals1StackItem { stack: VerificationTypeInfo::Uninitialized(l) }); } }
+					3 => { for e in &mut c.instructions { if e.label.is_none() && e.frame.is_none() { e.frame = Some(StackMapData::Same); break; } } }
+					4 => { for _ in 0..70 { c.instructions.insert(first + 1, duke::tree::method::code::InstructionListEntry { label: None, frame: None, instruction: Instruction::Nop }); }
+						c.instructions[(first + 71).min(n + 69)].frame = Some(StackMapData::Full { locals: vec![VerificationTypeInfo::Top, VerificationTypeInfo::UninitializedThis], stack: vec![] }); }
+					_ => { for e in &mut c.instructions { e.frame = None; } }
+				}
+			};
+			got += 1;
+			through(&mut run, "frames-mutated", &format!("gen_class with frames, mutation kind {kind} #{got}"), &b, Some(&f));
 		}
 	}
 	// 10. corpus
